@@ -13,6 +13,7 @@
 //	space H  marbl.Handler (the writer the proxy really uses) behind the stream: websocket subscribers that keep
 //	         up, stall (the 16384-frame buffer overflows) or disconnect
 //	conc F5  a subscriber that connects / disconnects while a message is being logged (all interleavings)
+//	space M, conc F6 (round 7, fanout.go)  several subscribers, some stalled, in every visiting order
 //	reader   sources that deliver the stream in other pieces than bytes.Reader (one byte at a time, data
 //	         together with EOF, half reads, a non-EOF error) x every truncation offset of a stream whose frames
 //	         straddle bufio's 4096-byte buffer
@@ -67,6 +68,8 @@ func init() {
 // version and the extensions that vary the same dimensions keep "roundtrip".
 func sigClass(c rtCase) string {
 	switch {
+	case c.Space == "M":
+		return "handler_fanout"
 	case len(c.Subs) > 0:
 		return "handler"
 	case c.W != nil:
@@ -400,6 +403,10 @@ type wsConn struct {
 	returned bool // ServeHTTP returned
 	status   int
 	started  bool
+	// round 7: a subscription with a bounded queue instead of a websocket client (spec.Room > 0)
+	q       *vrt.Chan[[]byte]
+	qmsgs   [][]byte // what the queue held at the end
+	qclosed bool     // the handler closed the queue (unsubscribed it)
 }
 
 func (c *wsConn) Read(p []byte) (int, error) { return 0, io.EOF }
@@ -512,11 +519,22 @@ func connectSubscribers(specs []subSpec, obs *observation) *marbl.Handler {
 	for _, sp := range specs {
 		c := &wsConn{spec: sp}
 		obs.subs = append(obs.subs, c)
-		if !sp.Late {
+		switch {
+		case sp.Room > 0:
+			subscribeQueue(h, c)
+		case sp.Late:
+		case sp.ID != "":
+			// one at a time, so that the forced id goes to this subscriber
+			restore := forceNextID(sp.ID)
+			startSubscriber(h, c)
+			vrt.WaitQuiescent()
+			restore()
+		default:
 			startSubscriber(h, c)
 		}
 	}
 	vrt.WaitQuiescent()
+	verifyForcedIDs(h, specs)
 	return h
 }
 
@@ -527,6 +545,11 @@ func releaseSubscribers(obs *observation) {
 	}
 	vrt.Bump()
 	vrt.WaitQuiescent()
+	for _, c := range obs.subs {
+		if c.q != nil {
+			drainQueue(c)
+		}
+	}
 }
 
 // checkSubscribers: what a websocket subscriber receives is the stream itself. A subscriber that was there
@@ -553,15 +576,23 @@ func checkSubscribers(obs *observation, add violSink) (keys []string) {
 			keys = append(keys, "sub/never-connected")
 			continue
 		}
-		hs := bytes.Index(c.out, []byte("\r\n\r\n"))
-		if hs < 0 || !bytes.HasPrefix(c.out, []byte("HTTP/1.1 101 ")) {
-			add("subscriber_handshake", fmt.Sprintf("%s: no websocket handshake response (status %d, %q)", who, c.status, clip(string(c.out))))
-			continue
-		}
-		msgs, closeFrame, tail := wsMessages(c.out[hs+4:])
-		if tail != 0 && !(tail > 0 && c.closed) {
-			add("subscriber_websocket_framing", fmt.Sprintf("%s: websocket output ends with %d stray bytes (negative: invalid frame)", who, tail))
-			continue
+		var msgs [][]byte
+		closeFrame := false
+		if c.q != nil {
+			// a bare queue: what it holds is what a websocket client would be sent once it reads again
+			msgs = c.qmsgs
+		} else {
+			hs := bytes.Index(c.out, []byte("\r\n\r\n"))
+			if hs < 0 || !bytes.HasPrefix(c.out, []byte("HTTP/1.1 101 ")) {
+				add("subscriber_handshake", fmt.Sprintf("%s: no websocket handshake response (status %d, %q)", who, c.status, clip(string(c.out))))
+				continue
+			}
+			var tail int
+			msgs, closeFrame, tail = wsMessages(c.out[hs+4:])
+			if tail != 0 && !(tail > 0 && c.closed) {
+				add("subscriber_websocket_framing", fmt.Sprintf("%s: websocket output ends with %d stray bytes (negative: invalid frame)", who, tail))
+				continue
+			}
 		}
 		got := bytes.Join(msgs, nil)
 		var first, end int
@@ -584,6 +615,12 @@ func checkSubscribers(obs *observation, add violSink) (keys []string) {
 		default:
 			e, ok := bounds[len(got)]
 			if !ok || !bytes.HasPrefix(refBytes, got) {
+				if missing, sub := missingFrames(msgs, obs.rec.writes); sub && fanoutCase(obs) {
+					// every message is a whole frame of the stream and they come in stream order, but some frames in
+					// between never arrived: whole frames were lost on the way to this subscriber
+					add("subscriber_lost_frames_in_between", fmt.Sprintf("%s: received %d of the %d frames of the stream in order, but frames %v never arrived although later ones did (%s)", who, len(msgs), len(ref), clipInts(missing, 12), describeFrames(ref, missing, 4)))
+					continue
+				}
 				add("subscriber_stream_torn", fmt.Sprintf("%s: the %d messages (%d bytes) it received are no whole-frame prefix of the stream (%d frames, %d bytes; first difference at %d)", who, len(msgs), len(got), len(ref), len(refBytes), firstDiff(got, refBytes)))
 				continue
 			}
@@ -595,7 +632,7 @@ func checkSubscribers(obs *observation, add violSink) (keys []string) {
 		case complete:
 		case broke:
 			// its connection broke: nothing more can be delivered
-		case c.spec.Stall || c.spec.Late:
+		case c.spec.Stall || c.spec.Late || c.spec.Room > 0:
 			// it fell behind (or was disconnected while connecting): frames were dropped, so the handler must have
 			// hung up; the subscriber must never see the stream continue after a hole
 			if !c.returned || !c.closed {
@@ -603,6 +640,10 @@ func checkSubscribers(obs *observation, add violSink) (keys []string) {
 			}
 		default:
 			add("subscriber_missed_frames", fmt.Sprintf("%s: kept up but received only frames [%d,%d) of %d", who, first, end, len(ref)))
+		}
+		if fanoutCase(obs) {
+			keys = append(keys, subKey(c, end, len(ref), end < len(ref) && ref[end].Type != 1))
+			continue
 		}
 		keys = append(keys, fmt.Sprintf("sub/stall=%v/fail=%v/late=%v/complete=%v/msgs=%s/closed=%v", c.spec.Stall, c.spec.FailAfter > 0, c.spec.Late, complete, bucket(len(msgs)), c.closed))
 	}
